@@ -82,7 +82,17 @@ def strategy(tier):
             'alias': st.booleans(),
             # fault: the transport of one recipient turns out to be dead
             # (ping timeout) at the moment the emit tries to send to it
-            'dying': st.one_of(st.none(), st.none(), ci)}),
+            'dying': st.one_of(st.none(), st.none(), ci),
+            # ... or (asyncio server, whose emit sends to every recipient in
+            # a task of its own) the send to it fails: the socket has been
+            # closed, its loss is reported afterwards
+            'dying_how': st.sampled_from(['ping', 'ping', 'raises'])}),
+        # a broadcast / room emit one of whose recipients is dying
+        st.fixed_dictionaries({
+            'op': st.just('emit'), 'ns': ns,
+            'to': st.one_of(st.none(), st.none(), _room_ref()),
+            'skip': st.none(), 'alias': st.booleans(), 'dying': ci,
+            'dying_how': st.sampled_from(['ping', 'raises', 'raises'])}),
         st.fixed_dictionaries({
             'op': st.just('emit'), 'ns': ns,
             'to': st.lists(st.integers(0, 2), min_size=2, max_size=4),
@@ -432,8 +442,27 @@ def _run(case, w):
                 exp_sorted = sorted(expected)
                 dying = exp_sorted[op['dying'] % len(exp_sorted)]
                 dsock = w.h.socket(w.t[w.clients[dying]['t']])
+                raising = None
                 if dsock is None or dsock.closed:
                     dying = None
+                elif op.get('dying_how') == 'raises':
+                    if not case['aio']:
+                        dying = None
+                    else:
+                        import engineio
+                        raising = (sio.eio.send, sio.eio.send_packet)
+                        dead = w.t[w.clients[dying]['t']]
+
+                        def mk_bad(orig):
+                            async def bad(eio_sid, *a, **kw_):
+                                if eio_sid == dead:
+                                    raise engineio.exceptions \
+                                        .SocketIsClosedError()
+                                return await orig(eio_sid, *a, **kw_)
+                            return bad
+                        sio.eio.send, sio.eio.send_packet = map(mk_bad,
+                                                                raising)
+                        labels['send_to_one_recipient_raises'] = True
                 else:
                     # engine.io notices the ping timeout inside send(), closes
                     # the socket and reports the disconnect from there
@@ -442,7 +471,20 @@ def _run(case, w):
             if op.get('binary'):
                 payload = {'tag': tag, 'blob': b'\x00\x01'}
                 labels['binary_emit'] = True
-            w.do(sio.emit('ev', payload, **kw))
+            try:
+                w.do(sio.emit('ev', payload, **kw))
+            except Exception as e:
+                # (whether the failing send is reported to the caller is not
+                # judged; who was served is)
+                if dying is None or raising is None or \
+                        type(e).__name__ != 'SocketIsClosedError':
+                    raise
+            finally:
+                if dying is not None and raising is not None:
+                    sio.eio.send, sio.eio.send_packet = raising
+            if dying is not None and raising is not None:
+                w.h.settle()
+                w.h.lose(w.t[w.clients[dying]['t']])
             if dying is not None:
                 dt = w.clients[dying]['t']
                 expected = expected - {dying}
